@@ -51,6 +51,21 @@ C20_MUTANTS = {
     "M12-ambiguous-variant-tolerated": ("its", "        elif len(nodes) > 1:\n            raise RuntimeError(", "        elif len(nodes) > 2:\n            raise RuntimeError("),
 }
 
+# the three repaired defects of /repo, reverted (a list of edits = one revert)
+C20_MUTANTS.update({
+    "R1-revert-3361dd0-repeated-steps-dropped": ("manu", 'setup_chain = run_params.get("setup", "").split()',
+                                                 'setup_chain = run_params.objects("setup")'),
+    "R2-revert-5f9a82c-reuse-status-dropped": ("its", [
+        ("    return _reuse_tool_with_param_dict(\n        config,\n        tag,\n        {\n            \"get_state_images\"",
+         "    _reuse_tool_with_param_dict(\n        config,\n        tag,\n        {\n            \"get_state_images\""),
+        ("    return _reuse_tool_with_param_dict(\n        config,\n        tag,\n        {\n            \"set_state_images\"",
+         "    _reuse_tool_with_param_dict(\n        config,\n        tag,\n        {\n            \"set_state_images\""),
+        ("    return _reuse_tool_with_param_dict(\n        config,\n        tag,\n        {\n            \"unset_state_images\"",
+         "    _reuse_tool_with_param_dict(\n        config,\n        tag,\n        {\n            \"unset_state_images\"")], None),
+    "R3-revert-79572ad-params-leak": ("its", "    try:\n        return tool(config, tag=tag)\n    finally:\n        config[\"param_dict\"] = setup_dict",
+                                      "    ret = tool(config, tag=tag)\n    config[\"param_dict\"] = setup_dict\n    return ret"),
+})
+
 C15_MUTANTS = {
     "U1-from-state-not-rerun": ("its", "                            skip_children=True,\n                        )", "                            skip_children=True,\n                        ) if False else None"),
     "U2-clean-flags-wrong-vm": ("its", "                        flag_state,\n                        vm_name,\n", "                        flag_state,\n                        selected_vms[0],\n"),
@@ -70,11 +85,14 @@ C15_MUTANTS = {
 def load_mutant(which, old, new, scratch):
     rel = "avocado_i2n/plugins/manu.py" if which == "manu" else "avocado_i2n/intertest_setup.py"
     src = open(os.path.join(vlib.REPO, rel)).read()
-    if src.count(old) != 1:
-        raise RuntimeError(f"mutation anchor occurs {src.count(old)} times in {rel}")
+    edits = old if isinstance(old, list) else [(old, new)]
+    for o, n in edits:
+        if src.count(o) != 1:
+            raise RuntimeError(f"mutation anchor occurs {src.count(o)} times in {rel}: {o[:60]!r}")
+        src = src.replace(o, n)
     path = os.path.join(scratch, os.path.basename(rel).replace(".py", "_mut.py"))
     with open(path, "w") as fh:
-        fh.write(src.replace(old, new))
+        fh.write(src)
     name = "avocado_i2n.plugins.manu_mut" if which == "manu" else "avocado_i2n.intertest_setup_mut"
     spec = importlib.util.spec_from_file_location(name, path)
     mod = importlib.util.module_from_spec(spec)
@@ -85,12 +103,13 @@ def load_mutant(which, old, new, scratch):
 
 def c20_cases(rng):
     cases = c20.gen_cases(rng, False)
-    # keep the run short: drop the cases that exist for the known findings
-    cases = [c for c in cases if c["chain"] not in (["noop", "noop"], ["create", "check"], ["clean", "unset"])]
+    # the three cheap regression cases of the repaired defects first
+    regress = [c for c in cases if c["chain"] in (["noop", "noop"], ["create", "check"], ["clean", "unset"])]
+    cases = [c for c in cases if c not in regress]
     # chains first (they are what the Manu.run mutants need), then a multi-worker single of each kind
     chains = [c for c in cases if len(c["chain"]) > 1]
     singles = [c for c in cases if len(c["chain"]) == 1 and len(c["nets"]) > 1]
-    return chains[:8] + singles[:6]
+    return regress + chains[:8] + singles[:6]
 
 
 def c15_cases(rng):
@@ -130,6 +149,14 @@ def run(prop, names):
             print(f"{name}: violations={keys} disagreements={len(ctx.disagreements)} after {n} cases", flush=True)
             if ctx.violations:
                 print("    e.g.", ctx.violations[0]["what"][:300], flush=True)
+                v = ctx.violations[0]
+                os.makedirs(os.path.join(vlib.REPLAY, "mutants"), exist_ok=True)
+                rp = os.path.join(vlib.REPLAY, "mutants", f"{prop.upper()}-{name}.json")
+                import json
+                with open(rp, "w") as fh:
+                    json.dump({"kind": "failing-input", "property": prop.upper(), "mutant": name, "key": v["key"],
+                               "what": v["what"], "case": v["case"]}, fh, indent=1, sort_keys=True, default=str)
+                print("    replay (fails on the mutated module, passes on /repo):", rp, flush=True)
     finally:
         toolslib.cleanup()
         shutil.rmtree(scratch, ignore_errors=True)
